@@ -202,26 +202,32 @@ fn run_case(line: &str) -> String {
     // readers: skipped when the declared size is in the gap the property excludes
     let in_gap = |x: u64| x > (1 << 24) && x < (1 << 62);
     let skip = bs.len() >= 48 && { let l = u64::from_le_bytes(bs[0..8].try_into().unwrap()); let q = u64::from_le_bytes(bs[24..32].try_into().unwrap()); let b = u64::from_le_bytes(bs[32..40].try_into().unwrap()); in_gap(l) || in_gap(q) || in_gap(b) };
-    if skip { o.push_str(" rd=skip ri=skip"); return o; }
+    if skip { o.push_str(" rd=skip rda=skip ri=skip ria=skip"); return o; }
+    // the blocking and the async readers are reported separately: each is compared with the
+    // model and judged by the oracle on its own
     let b = bs.clone();
     let rd = g(move || {
         let mut src = Dribble { data: &b, pos: 0, step: 7 };
-        let a = match repe::read_message(&mut src) { Ok(m) => format!("{}/{}", msg_s(&m), hex(&b[src.pos..])), Err(e) => format!("err:{}", err_kind(&e)) };
-        let mut cur: &[u8] = &b;
-        let a2 = match net::runtime().block_on(repe::async_io::read_message_async(&mut cur)) { Ok(m) => format!("{}/{}", msg_s(&m), hex(cur)), Err(e) => format!("err:{}", err_kind(&e)) };
-        if a == a2 { a } else { format!("err:DIFFER[{a}|{a2}]") }
+        match repe::read_message(&mut src) { Ok(m) => format!("{}/{}", msg_s(&m), hex(&b[src.pos..])), Err(e) => format!("err:{}", err_kind(&e)) }
     });
-    o.push_str(&format!(" rd={rd}"));
+    let b = bs.clone();
+    let rda = g(move || {
+        let mut cur: &[u8] = &b;
+        match net::runtime().block_on(repe::async_io::read_message_async(&mut cur)) { Ok(m) => format!("{}/{}", msg_s(&m), hex(cur)), Err(e) => format!("err:{}", err_kind(&e)) }
+    });
+    o.push_str(&format!(" rd={rd} rda={rda}"));
     let b = bs.clone();
     let ri = g(move || {
         let mut src = Dribble { data: &b, pos: 0, step: 11 };
         let mut buf = vec![7u8; 5];
-        let a = match repe::read_message_into(&mut src, &mut buf) { Ok(()) => format!("{}/{}", hex(&buf), hex(&b[src.pos..])), Err(e) => format!("err:{}", err_kind(&e)) };
-        let mut cur: &[u8] = &b; let mut buf2 = Vec::new();
-        let a2 = match net::runtime().block_on(repe::async_io::read_message_into_async(&mut cur, &mut buf2)) { Ok(()) => format!("{}/{}", hex(&buf2), hex(cur)), Err(e) => format!("err:{}", err_kind(&e)) };
-        if a == a2 { a } else { format!("err:DIFFER[{a}|{a2}]") }
+        match repe::read_message_into(&mut src, &mut buf) { Ok(()) => format!("{}/{}", hex(&buf), hex(&b[src.pos..])), Err(e) => format!("err:{}", err_kind(&e)) }
     });
-    o.push_str(&format!(" ri={ri}"));
+    let b = bs.clone();
+    let ria = g(move || {
+        let mut cur: &[u8] = &b; let mut buf2 = Vec::new();
+        match net::runtime().block_on(repe::async_io::read_message_into_async(&mut cur, &mut buf2)) { Ok(()) => format!("{}/{}", hex(&buf2), hex(cur)), Err(e) => format!("err:{}", err_kind(&e)) }
+    });
+    o.push_str(&format!(" ri={ri} ria={ria}"));
     o
 }
 
